@@ -423,6 +423,7 @@ ABTI_ythread_atomic_get_joiner(ABTI_ythread *p_ythread)
             /* This case means a join request is issued and the joiner is
              * setting p_link.  Wait for it. */
             do {
+                ABTI_VERIF_SPIN_HINT(ABTI_VERIF_SITE_JOINER_LINK, p_ctx);
                 p_link = ABTD_atomic_acquire_load_ythread_context_ptr(
                     &p_ctx->p_link);
             } while (!p_link);
